@@ -138,6 +138,8 @@ class Interp:
             return self.class_val(classes[0][1])
         if len(exts) == 1:
             n = exts[0][1]
+            if n in PYTYPES and n not in self.ext:
+                return PYTYPES[n]
             if n in self.ext:
                 return Stub(n, self.ext[n])
             b = BUILTINS.get(n)
@@ -178,7 +180,10 @@ class Interp:
                 self.call_func(init, None, args, kwargs, obj)
             return obj
         if callable(f) and not isinstance(f, (Obj,)):
-            return f(*args, **kwargs)
+            try:
+                return f(*args, **kwargs)
+            except (TypeError, ValueError, KeyError, IndexError) as e:
+                raise AbsRaise(f"{type(e).__name__}: {e}")
         if isinstance(f, Obj) and "__call__" in f.attrs:
             return self.call(f.attrs["__call__"], args, kwargs, where)
         raise AnalysisError(f"evaluator: value {f!r} is not callable ({where})")
@@ -525,7 +530,13 @@ class Interp:
                     out.append(self.eval(x, env))
             return tuple(out)
         if isinstance(e, ast.List):
-            return [self.eval(x, env) for x in e.elts]
+            out = []
+            for x in e.elts:
+                if isinstance(x, ast.Starred):
+                    out.extend(self.iterate(self.eval(x.value, env)))
+                else:
+                    out.append(self.eval(x, env))
+            return out
         if isinstance(e, ast.Set):
             return {self.eval(x, env) for x in e.elts}
         if isinstance(e, ast.Dict):
@@ -536,7 +547,14 @@ class Interp:
             f = self.m.func_of_node.get(e)
             return Closure(f, env)
         if isinstance(e, ast.JoinedStr):
-            return "<fstring>"
+            out = []
+            for v in e.values:
+                if isinstance(v, ast.Constant):
+                    out.append(str(v.value))
+                else:
+                    x = self.eval(v.value, env)
+                    out.append(repr(x) if v.conversion == 114 else str(x))
+            return "".join(out)
         raise AnalysisError(f"evaluator: expression `{norm(e)}` outside the supported language")
 
     def isinstance_(self, v, c):
@@ -544,6 +562,8 @@ class Interp:
             return any(self.isinstance_(v, x) for x in c)
         if isinstance(c, ClassVal):
             return isinstance(v, Obj) and v.cls is not None and c.cls in v.cls.repo_mro()
+        if isinstance(c, type):
+            return isinstance(v, c) and not isinstance(v, (Obj, Native))
         if isinstance(c, Stub):
             py = {"builtins.int": int, "builtins.str": str, "builtins.tuple": tuple, "builtins.list": list,
                   "builtins.dict": dict, "builtins.set": set, "builtins.bool": bool}.get(c.name)
@@ -595,6 +615,8 @@ class Interp:
         if isinstance(o, Stub):
             n = f"{o.name}.{attr}"
             return Stub(n, self.ext.get(n) or BUILTINS.get(n))
+        if isinstance(o, str) and attr in ("join", "startswith", "endswith", "format", "replace", "split", "strip"):
+            return getattr(o, attr)
         if isinstance(o, dict) and attr in ("items", "values", "keys", "get", "setdefault"):
             return getattr(o, attr)
         if isinstance(o, list) and attr in ("append", "pop", "extend", "reverse"):
@@ -633,6 +655,9 @@ def _min(*args, default=_SENTINEL):
         return default
     return min(it)
 
+
+PYTYPES = {"builtins.list": list, "builtins.tuple": tuple, "builtins.set": set, "builtins.dict": dict,
+           "builtins.str": str, "builtins.int": int, "builtins.bool": bool, "builtins.frozenset": frozenset}
 
 BUILTINS = {
     "builtins.any": lambda it: any(bool(x) if not isinstance(x, Obj) else x.truthy for x in it),
